@@ -655,6 +655,20 @@ class _SplitWrites:
         return out
 
 
+def _simple_test(t):
+    if isinstance(t, (ast.Name, ast.Constant)):
+        return True
+    if isinstance(t, ast.Attribute):
+        return _simple_test(t.value)
+    if isinstance(t, ast.Compare):
+        return _simple_test(t.left) and all(_simple_test(c) for c in t.comparators)
+    if isinstance(t, ast.BoolOp):
+        return all(_simple_test(v) for v in t.values)
+    if isinstance(t, ast.UnaryOp) and isinstance(t.op, ast.Not):
+        return _simple_test(t.operand)
+    return False
+
+
 class _Simplify(ast.NodeTransformer):
     """after a callable was substituted for a name: (lambda a: E)(x) -> E[a := x];  <lambda/function/None> is None -> constant; if <constant>: ..."""
 
@@ -683,11 +697,32 @@ class _Simplify(ast.NodeTransformer):
                 return ast.copy_location(ast.Constant(value=isinstance(node.ops[0], ast.Is)), node)
         return node
 
+    NEG = {ast.Eq: ast.NotEq, ast.NotEq: ast.Eq, ast.Is: ast.IsNot, ast.IsNot: ast.Is, ast.In: ast.NotIn, ast.NotIn: ast.In}
+
     def visit_If(self, node):
         self.generic_visit(node)
         if isinstance(node.test, ast.Constant) and isinstance(node.test.value, bool):
             return (node.body if node.test.value else node.orelse) or None
+        if not node.body:
+            # an arm that folded away:  if T: <nothing> else: B  ->  if not T: B ;  both arms empty -> the (side-effect free) test goes too
+            t = node.test
+            if not node.orelse:
+                return ast.copy_location(ast.Pass(), node) if _simple_test(t) else ast.copy_location(ast.Expr(value=t), node)
+            if isinstance(t, ast.Compare) and len(t.ops) == 1 and type(t.ops[0]) in self.NEG:
+                neg = ast.copy_location(ast.Compare(left=t.left, ops=[self.NEG[type(t.ops[0])]()], comparators=t.comparators), t)
+            else:
+                neg = ast.copy_location(ast.UnaryOp(op=ast.Not(), operand=t), t)
+            return ast.copy_location(ast.If(test=neg, body=node.orelse, orelse=[]), node)
         return node
+
+    def _block(self, node):
+        self.generic_visit(node)
+        for fld in ('body', 'orelse', 'finalbody'):
+            b = getattr(node, fld, None)
+            if isinstance(b, list) and fld == 'body' and not b:
+                node.body = [ast.copy_location(ast.Pass(), node)]
+        return node
+    visit_For = visit_While = visit_With = visit_FunctionDef = visit_ExceptHandler = visit_Try = _block
 
 
 class _ConstStrings(ast.NodeTransformer):
